@@ -83,6 +83,7 @@ type Env struct {
 	Any     interface{}
 	M       map[string]int
 	MA      map[string]interface{}
+	PM      *map[string]bool // a pointer to a map: the checker's predicates look through the pointer
 	O       Obj
 	P       *Obj
 	Os      []Obj
@@ -108,6 +109,7 @@ type Env struct {
 	Tup    func(...interface{}) interface{}
 	VarI   func(...interface{}) interface{}
 	Add3   func(int, int, int) int
+	EqI    func(int, int) bool
 
 	lg *Log
 }
@@ -167,6 +169,7 @@ func NewEnv(lg *Log) *Env {
 	// Tup returns its variadic slice itself (a callee may retain its arguments)
 	e.Tup = func(xs ...interface{}) interface{} { lg.add("Tup", xs...); return xs }
 	// VarI depends on the environment value it is a member of (a per-request closure)
+	e.EqI = func(a, b int) bool { lg.add("EqI", a, b); return a+1 == b } // not the built-in equality
 	e.Add3 = func(a, b, c int) int { lg.add("Add3", a, b, c); return a + b + c }
 	e.VarI = func(xs ...interface{}) interface{} { lg.add("VarI", xs...); return e.I + len(xs) }
 	return e
